@@ -161,7 +161,11 @@ def _cfg(setup_block: int, deps: List[int], trailing: bool, inline: bool):
             lines.append("    " + d)
         block = (start, len(lines) - 1)
     if trailing:
-        lines += ["", "[options.extras_require]", "test = pytest"]
+        # the extras entry ENDS with the same text as the install_requires value (inline layout) or repeats its last
+        # line (multi-line layout): only the position tells the two apart
+        lines += ["", "[options.extras_require]", "test = " + (", ".join(dep_lines) if inline else "pytest")]
+        if not inline and dep_lines:
+            lines += ["other =", "    " + dep_lines[-1]]
     return lines, block, dep_lines
 
 
@@ -302,6 +306,41 @@ def second_run_setup_cfg(deps: List[int], inline: bool, final_newline: bool) -> 
     return fin(ok and cs2 is None and after2 == after1)
 
 
+def second_run_setup_py(single_quotes: bool, attr_call: bool, declared: int) -> bool:
+    """Parser + writer round trip on setup.py (real SetupPyParser, real SetupPyWriter; libcst runs untraced on the
+    concrete text): requirement strings written with double or single quotes, `setup(..)` or `setuptools.setup(..)`,
+    defusedxml undeclared / declared / declared with a version: a declared package is never added again; an
+    undeclared one is added exactly once and a second run (re-parse, write again) adds nothing.
+    post: _
+    """
+    import codemodder.dependency_management.setup_py_writer as spw
+    import codemodder.project_analysis.file_parsers.setup_py_file_parser as spp
+
+    q = "'" if single_quotes else '"'
+    reqs = ["requests"] + ([] if declared % 3 == 0 else (["defusedxml"] if declared % 3 == 1 else ["defusedxml>=0.6"]))
+    head = "import setuptools\nsetuptools.setup(\n" if attr_call else "from setuptools import setup\nsetup(\n"
+    text = head + "    name=%sx%s,\n    install_requires=[\n%s    ],\n)\n" % (q, q, "".join("        %s%s%s,\n" % (q, r, q) for r in reqs))
+    path = "/d/setup.py"
+    fs = FakeFS({path: text})
+    spw.open = fs.open
+    spp.open = fs.open
+    try:
+        with NoTracing():
+            store1 = spp.SetupPyParser(Path("/d"))._parse_file(Path(path))
+            cs1 = DependencyManager(store1, Path("/d")).write([DefusedXML], False)
+            after1 = fs.files[path]
+            store2 = spp.SetupPyParser(Path("/d"))._parse_file(Path(path))
+            cs2 = DependencyManager(store2, Path("/d")).write([DefusedXML], False)
+            after2 = fs.files[path]
+    finally:
+        del spw.open
+        del spp.open
+    n1 = after1.count("defusedxml")
+    if declared % 3 != 0:
+        return fin(cs1 is None and cs2 is None and after2 == text)
+    return fin(cs1 is not None and n1 == 1 and cs2 is None and after2 == after1 and "requests" in after1)
+
+
 def two_codemods_one_manifest(same_dep: bool, declared: bool, swap: bool) -> bool:
     """Two codemods of one run needing a package (the same or different ones) share the run's parsed manifest: each
     needed package ends up listed exactly once, as after one-at-a-time runs (obligation shared with C09).
@@ -430,7 +469,7 @@ SPEC = {
         "dependency.build_dependency_notification / build_failed_dependency_notification",
     ],
     "bounds": {
-        "quick": "requirements.txt: <= 2 (thorough 3) lines chosen from 5 kinds (pinned requirement, comment, blank, marker, -r include), with/without final newline, empty file, 1-2 new dependencies, dry/real; setup.cfg: optional setup_requires block (unrelated / repeating the last install_requires line), 1-2 (thorough 3) install_requires lines from a pool of 3 (duplicates allowed), inline or multi-line, optional trailing section; declared-name spellings: 3 cases x 6 separators x 3 second parts; <= 2 stores",
+        "quick": "requirements.txt: <= 2 (thorough 3) lines chosen from 5 kinds (pinned requirement, comment, blank, marker, -r include), with/without final newline, empty file, 1-2 new dependencies, dry/real; setup.cfg: optional setup_requires block (unrelated / repeating the last install_requires line), 1-2 (thorough 3) install_requires lines from a pool of 3 (duplicates allowed), inline or multi-line, optional trailing extras section that ends with / repeats the install_requires text; declared-name spellings: 3 cases x 6 separators x 3 second parts; <= 2 stores",
         "thorough": "requirements.txt with <= 3 lines",
     },
     "assumptions": [
@@ -446,6 +485,7 @@ SPEC = {
         Xh("requirements_txt", 300, 900),
         Xh("setup_cfg", 400, 1500),
         Xh("already_declared_not_written", 150, 300),
+        Xh("second_run_setup_py", 100, 200),
         Xh("second_run_setup_cfg", 200, 400),
         Xh("two_codemods_one_manifest", 200, 400),
         Xh("notice", 150, 300),
